@@ -469,6 +469,13 @@ class Run:
         obs['qs'] = [[qn, int(q.limit), [[int(t.point), t.tdef.name] for t in reversed(q.deque)]]
                      for qn, q in tp.task_queue_mgr.queues.items()]
         obs['wjp'] = sorted([int(t.point), t.tdef.name] for t in schd.pool.get_tasks() if t.waiting_on_job_prep)
+        # additive (C04F / C07F, future triggers): the cached TaskPool.max_future_offset and the lazily raised
+        # max_future_prereq_offset of the task definitions that have one
+        obs['mfo'] = None if tp.max_future_offset is None else int(tp.max_future_offset)
+        # (and the base point the limit was last computed from: TaskPool._prev_runahead_base_point)
+        obs['pb'] = None if tp._prev_runahead_base_point is None else int(tp._prev_runahead_base_point)
+        obs['toff'] = sorted([n, int(d.max_future_prereq_offset)] for n, d in schd.config.taskdefs.items()
+                             if d.max_future_prereq_offset is not None)
         obs['xsui'] = sorted((
             [int(t.point), t.tdef.name, sorted((
                 sorted([int(str(k.point)), k.task, k.output, _sat.get(v, 9)] for k, v in pre.items())
@@ -633,7 +640,23 @@ class Run:
                     if hints:
                         hints[-1]['rm'] = [f"{int(t['cycle'])}/{t['task']}" for t in ids]
                         hints[-1]['fn'] = sorted(flow_nums)     # the flow numbers the group is triggered in
-                    return orig_rm(schd_, ids, flow_nums, *a, **k)
+                    # additive (C30, hint 'ch'): per removed id the order in which its graph children (a set) are walked
+                    orig_ggc = commands.generate_graph_children
+                    child_order = []
+
+                    def _ggc(tdef, point):
+                        import itertools
+                        res = orig_ggc(tdef, point)
+                        child_order.append([f'{int(point)}/{tdef.name}', [
+                            f'{int(c.point)}/{c.name}' for c in set(itertools.chain.from_iterable(res.values()))]])
+                        return res
+                    commands.generate_graph_children = _ggc
+                    try:
+                        return orig_rm(schd_, ids, flow_nums, *a, **k)
+                    finally:
+                        commands.generate_graph_children = orig_ggc
+                        if hints:
+                            hints[-1]['ch'] = child_order
 
                 def _sp(point, taskdef, *a, **k):
                     if hints:
@@ -661,18 +684,31 @@ class Run:
                 # additive (C30): `cylc remove`.  The matched ids are a Python set: the order in which
                 # _remove_matched_tasks walks them is written back into the op (hint 'rm') for the model
                 orig_rm = commands._remove_matched_tasks
-                order = []
+                orig_ggc = commands.generate_graph_children
+                order, child_order = [], []
 
                 def _rm(schd_, ids, flow_nums, *a, **k):
                     ids = list(ids)
                     order.extend(f"{int(t['cycle'])}/{t['task']}" for t in ids)
                     return orig_rm(schd_, ids, flow_nums, *a, **k)
+
+                def _ggc(tdef, point):
+                    # (hint 'ch') the graph children of each matched id are walked as a Python set: the same set,
+                    # built the same way, gives the order
+                    import itertools
+                    res = orig_ggc(tdef, point)
+                    child_order.append([f'{int(point)}/{tdef.name}', [
+                        f'{int(c.point)}/{c.name}' for c in set(itertools.chain.from_iterable(res.values()))]])
+                    return res
                 commands._remove_matched_tasks = _rm
+                commands.generate_graph_children = _ggc
                 try:
                     await commands.run_cmd(fn(schd, **kwargs))
                 finally:
                     commands._remove_matched_tasks = orig_rm
+                    commands.generate_graph_children = orig_ggc
                     op['rm'] = order
+                    op['ch'] = child_order
                     # the jobs of proxies removed by the command are killed: nothing more is heard of them
                     for p, n, _st, _outs, reason in getattr(self, 'removed', []):
                         if reason == 'request':
@@ -1385,7 +1421,11 @@ def extract_graph(schd, case, flow_text=None):
                     continue
                 inst = inst_off
             saved = tdef.max_future_prereq_offset
+            # additive (C04F / C07F, future triggers): what the construction of a TaskProxy at this point
+            # contributes to the lazily raised tdef.max_future_prereq_offset (key 'fut_off')
+            tdef.max_future_prereq_offset = None
             itask = TaskProxy(tokens, tdef, pt, {1})
+            fut_off = tdef.max_future_prereq_offset
             tdef.max_future_prereq_offset = saved
 
             def conv(pre):
@@ -1403,7 +1443,15 @@ def extract_graph(schd, case, flow_text=None):
                     tree = idx(tree)
                 return {'atoms': atoms, 'expr': tree}
             nxt = tdef.next_point_parentless(cfg.start_point, pt)
+            # additive (C04F / C07F): the n=1 window neighbours for which the data store builds ghost task proxies
+            # when this instance enters the pool (increment_graph_window: children and parents up to the final point)
+            from cylc.flow.taskdef import generate_graph_parents as _ggp
+            _ghosts = sorted({(c.name, int(c.point)) for cs in itask.graph_children.values() for c in cs
+                              if int(c.point) <= fcp}
+                             | {(pn, int(pp)) for pn, pp, _ in _ggp(tdef, pt, cfg.taskdefs) if int(pp) <= fcp})
             inst[str(p)] = {
+                'fut_off': None if fut_off is None else int(fut_off),
+                'ghosts': [[n_, p_] for n_, p_ in _ghosts],
                 'pre': [conv(x) for x in itask.state.prerequisites],
                 'sui': [conv(x) for x in itask.state.suicide_prerequisites],
                 'children': {out: sorted([c.name, int(c.point), bool(c.is_abs)] for c in cs)
@@ -1429,6 +1477,7 @@ def extract_graph(schd, case, flow_text=None):
                 'valid_pre': sorted([int(str(k.point)), k.task, k.output]
                                     for k in {k for pre in tdef.get_prereqs(pt) for k in pre.keys()}),
             }
+            tdef.max_future_prereq_offset = saved      # (tdef.get_prereqs above raises it as well)
             if comp is None:
                 comp = parse_bool(itask.state.outputs._completion_expression.replace('_', '-') if False else itask.state.outputs._completion_expression,
                                   r'[A-Za-z_][\w]*', ops=('and', 'or'))
